@@ -405,6 +405,11 @@ class PhaseField(_Simu):
             else:
                 converged = convIter <= tolConv
 
+        # The elastic matrices were assembled before the last displacement solve (the split is
+        # linearised on the previous displacement): results queried after the step (Wdef, ...)
+        # must be those of the converged state, which is also what Set_Iter brings back.
+        self.__updatedDisplacement = False
+
         solverTypes = Models.PhaseField.SolverType
 
         if solver in [solverTypes.History, solverTypes.BoundConstrain]:
